@@ -42,15 +42,20 @@ RegexTok(re, form) == LET p == RenderPat(re) IN
   [k |-> "regex", pat |-> p, form |-> form, bad |-> "none", re |-> re,
    body |-> IF form = "q" THEN QuotedSource(p) ELSE <<>>, txt |-> ""]
 Cases == IF Mode = "regex" THEN {<<"re", re, f>> : re \in Regexes, f \in {"q", "r"}}
-         ELSE {<<"w", p, st, lim>> : p \in WPatterns, st \in BOOLEAN, lim \in {-1, 0, 1, 2}}
+         ELSE {<<"w", p, st, lim, "top">> : p \in WPatterns, st \in BOOLEAN, lim \in {-1, 0, 1, 2}}
+              \* the limits are settings of the parser: they hold at every nesting level
+              \cup {<<"w", p, FALSE, lim, wr>> : p \in WPatterns, lim \in {0, 1}, wr \in {"paren", "not"}}
 Init == cas \in Cases
 Next == FALSE /\ UNCHANGED cas
 Spec == Init /\ [][Next]_cas
 
+WToks == <<Id("s"), [k |-> "bop", v |-> (IF cas[3] THEN "strict wildcard" ELSE "wildcard"), a |-> 0],
+           [k |-> "wild", v |-> cas[2], form |-> "q", txt |-> ""]>>
 Toks == IF cas[1] = "re"
         THEN <<Id("s"), [k |-> "bop", v |-> "matches", a |-> 0], RegexTok(cas[2], cas[3])>>
-        ELSE <<Id("s"), [k |-> "bop", v |-> (IF cas[3] THEN "strict wildcard" ELSE "wildcard"), a |-> 0],
-               [k |-> "wild", v |-> cas[2], form |-> "q", txt |-> ""]>>
+        ELSE IF cas[5] = "paren" THEN <<[k |-> "lp"]>> \o WToks \o <<[k |-> "rp"]>>
+        ELSE IF cas[5] = "not" THEN <<[k |-> "not", a |-> 1], [k |-> "lp"], [k |-> "not", a |-> 0]>> \o WToks \o <<[k |-> "rp"]>>
+        ELSE WToks
 Star == IF cas[1] = "re" THEN -1 ELSE cas[4]
 Vector ==
   LET r == ParseFilterS(Toks, Sch, 128, Star) IN
